@@ -142,6 +142,8 @@ func ghostTimerPrefix(kg uint16) []byte { return []byte{byte(kg >> 8), byte(kg),
 
 // HandleDeploy (re)initialises the operator for a new assembly: no alignment
 // state of the previous assembly survives.
+// (Every deploy also takes its upstream source runners from THIS request: a surviving operator that
+// kept the previous assembly's list would wait for the barrier of a runner that no longer exists.)
 // (Every deploy derives the key space and the operator's own key-group range from THIS request's
 // key-group count and operator list: after a rescale a redeployed process must not keep the
 // range of the previous assembly - C06.)
@@ -152,6 +154,8 @@ func ghostTimerPrefix(kg uint16) []byte { return []byte{byte(kg >> 8), byte(kg),
 //@   ensures result == nil ==> o.checkpoint == nil
 //@   atcall NewKeySpace: arg0 == int(req.KeyGroupCount) && arg1 == len(req.Operators)
 //@   ensures result == nil ==> called(NewKeySpace)
+//@   atcall newUpstreams: same(arg0, req.SourceRunnerIds)
+//@   ensures result == nil ==> called(newUpstreams)
 
 // alignSender decides, under the lock, whether a sender has to wait: exactly
 // the senders whose barrier for the open checkpoint has already arrived.
